@@ -332,6 +332,21 @@ def run_case(case, obs):
             )
         S.phase = "after"
         _compare(obs, "dask_vs_numpy", got, ref, tol_eq, tags, cls=cls)
+        # history: further compute() calls on the same object must neither touch the stored input
+        # nor change any result (the allow_compute flag has to survive the rebuild done by compute())
+        if cls != "OPA" and callable(getattr(m, "compute", None)):
+            S.phase = "recompute"
+            m.compute()
+            m.compute()
+            got2 = _entries(m)
+            bad = [k for k, v in got2.items() if _is_input(k) and not xu.is_dask(v)]
+            obs.check(
+                "input_data_lazy_after_repeated_compute",
+                not bad,
+                f"input data entries materialised by a repeated compute(): {bad}",
+                tags=dict(tags, op="recompute", symptom="input_data_materialised"),
+            )
+            _compare(obs, "after_recompute", got2, {k: v for k, v in got.items()}, 1e-12, dict(tags, op="recompute"), cls=None)
         obs.cell(f"decided:{cls}")
         obs.note("orders", S.orders)
         obs.note("n_entries", len(S.entries))
